@@ -42,6 +42,64 @@ pub fn overrun(len: usize, additional: usize, capacity: usize) {
     }
 }
 
+/// Counterparts of `std::sync::atomic` types with a scheduling point in front of every access
+/// ( `sched_point("atomic:…")` ), so that a simulation harness can interleave other work between two
+/// accesses to a counter shared across threads. Without an installed hook they behave as the `std` types.
+pub mod atomic {
+    use std::sync::atomic::Ordering;
+
+    pub struct AtomicUsize(std::sync::atomic::AtomicUsize);
+    impl AtomicUsize {
+        pub const fn new(v: usize) -> Self {
+            Self(std::sync::atomic::AtomicUsize::new(v))
+        }
+        #[inline] pub fn load(&self, o: Ordering) -> usize {
+            super::sched_point("atomic:load"); self.0.load(o)
+        }
+        #[inline] pub fn store(&self, v: usize, o: Ordering) {
+            super::sched_point("atomic:store"); self.0.store(v, o)
+        }
+        #[inline] pub fn swap(&self, v: usize, o: Ordering) -> usize {
+            super::sched_point("atomic:rmw"); self.0.swap(v, o)
+        }
+        #[inline] pub fn fetch_add(&self, v: usize, o: Ordering) -> usize {
+            super::sched_point("atomic:rmw"); self.0.fetch_add(v, o)
+        }
+        #[inline] pub fn fetch_sub(&self, v: usize, o: Ordering) -> usize {
+            super::sched_point("atomic:rmw"); self.0.fetch_sub(v, o)
+        }
+        #[inline] pub fn fetch_max(&self, v: usize, o: Ordering) -> usize {
+            super::sched_point("atomic:rmw"); self.0.fetch_max(v, o)
+        }
+        #[inline] pub fn fetch_min(&self, v: usize, o: Ordering) -> usize {
+            super::sched_point("atomic:rmw"); self.0.fetch_min(v, o)
+        }
+        #[inline] pub fn compare_exchange(&self, c: usize, n: usize, s: Ordering, f: Ordering) -> Result<usize, usize> {
+            super::sched_point("atomic:rmw"); self.0.compare_exchange(c, n, s, f)
+        }
+        #[inline] pub fn compare_exchange_weak(&self, c: usize, n: usize, s: Ordering, f: Ordering) -> Result<usize, usize> {
+            super::sched_point("atomic:rmw"); self.0.compare_exchange_weak(c, n, s, f)
+        }
+        #[inline] pub fn fetch_update<F: FnMut(usize) -> Option<usize>>(&self, s: Ordering, f: Ordering, mut g: F) -> Result<usize, usize> {
+            // as `std` does it: a load, then compare-exchange until it succeeds — with a scheduling point at each step
+            let mut prev = self.load(f);
+            while let Some(next) = g(prev) {
+                match self.compare_exchange_weak(prev, next, s, f) {
+                    Ok(x) => return Ok(x),
+                    Err(p) => prev = p,
+                }
+            }
+            Err(prev)
+        }
+        #[inline] pub fn get_mut(&mut self) -> &mut usize {
+            self.0.get_mut()
+        }
+        #[inline] pub fn into_inner(self) -> usize {
+            self.0.into_inner()
+        }
+    }
+}
+
 /// Routing item types are public but not nameable from outside the crate; a harness that assembles
 /// applications from run-time descriptions needs to name them.
 pub use crate::ohkami::routing::{Routing, HandlerSet, ByAnother, Dir};
